@@ -123,9 +123,45 @@ def _scenario(job):
     return res
 
 
+EINVAL_MAIN = '''
+#include <errno.h>
+int main(void) {
+    int bad = 0, r;
+    errno = 0; r = yylex_init(NULL);
+    if (r == 0 || errno != EINVAL) { printf("yylex_init(NULL): r=%d errno=%d\\n", r, errno); bad = 1; }
+    errno = 0; r = yylex_init_extra(0, NULL);
+    if (r == 0 || errno != EINVAL) { printf("yylex_init_extra(x, NULL): r=%d errno=%d\\n", r, errno); bad = 1; }
+    return bad;
+}
+'''
+
+
+def einval_probe(ctx, flex, src, work):
+    """yylex_init / yylex_init_extra with a null result pointer: non-zero, errno EINVAL (documented)"""
+    n = 0
+    for name, opt in (('reentrant', 'reentrant'), ('c99', 'emit="c99" extra-type="void *"')):
+        lf = os.path.join(work, 'c14_einval_%s.l' % name)
+        cf = lf[:-2] + '.c'
+        exe = lf[:-2] + '.exe'
+        open(lf, 'w').write('%%option noyywrap %s\n%%%%\na ;\n%%%%\n%s' % (opt, EINVAL_MAIN))
+        rc, so, se = flexrun.run_flex(flex, lf, cf, [])
+        import subprocess
+        p = subprocess.run(['gcc', '-w', '-I', src, cf, '-o', exe], stdout=subprocess.PIPE, stderr=subprocess.STDOUT, text=True) if rc == 0 else None
+        if rc != 0 or p.returncode != 0:
+            ctx.violation('EINVAL probe (%s): scanner does not build: %s' % (name, (se if rc else p.stdout)[-200:]), {'back end': name})
+            continue
+        q = subprocess.run([exe], stdout=subprocess.PIPE, text=True, timeout=20)
+        n += 1
+        if q.returncode != 0:
+            ctx.violation('%s scanner: %s (documented: non-zero with errno EINVAL)' % (name, q.stdout.strip()[:200]),
+                          {'back end': name, 'main': EINVAL_MAIN})
+    return n
+
+
 def run(ctx):
     flex, src = flexrun.build_flex()
     work = flexrun.scratch_root()
+    einval_probe(ctx, flex, src, work)
     discharged = common.proof_audit(ctx, THEOREMS)
     for b in getattr(ctx, 'proof_broken', []):
         ctx.violation('proof obligation broken: ' + b, {'broken': b}, no_input=True)
